@@ -37,6 +37,12 @@ Definition as_int (w : Z) (signed : bool) (a : Z) : Z := kwrap w signed (Z.quot 
 Definition checked_as_int (w : Z) (signed : bool) (a : Z) : option Z :=
   let n := as_int w signed a in
   if (from_int n =? a) && Bool.eqb (n <? 0) (a <? 0) then Some n else None.
+(* fraction.go: Fraction{Numerator, Denominator}. Normalize: a zero denominator becomes 0/1, a negative one is multiplied away
+   (both parts times From(-1)); Value = normalised numerator / normalised denominator *)
+Definition frac_norm (n d : Z) : Z * Z :=
+  if d =? 0 then (0, from_int 1) else if d <? 0 then (mul n (from_int (-1)), mul d (from_int (-1))) else (n, d).
+(* None: Go panics (integer divide by zero) - the normalised denominator can still be zero when d * From(-1) wraps, e.g. d = MinInt64 *)
+Definition frac_value (n d : Z) : option Z := let '(n', d') := frac_norm n d in if d' =? 0 then None else Some (div n' d').
 End F64.
 
 (* ---- f128: the same over Int128 ---- *)
@@ -63,4 +69,8 @@ Definition from_int128 (unsigned64 : bool) (v : Z) : w128 :=            (* v: th
   Mul (if unsigned64 then mk 0 (wrap v) else From64 (swrap v)) m128.
 Definition as_int128 (w : Z) (signed : bool) (a : w128) : Z :=
   let q := ok128 (IDiv a m128) in kwrap w signed (to_s64 (lo q)).          (* AsInt64 = int64(lo) ... for in-range values *)
+Definition frac_norm128 (n d : w128) : w128 * w128 :=
+  if Equal d zero then (zero, from_int128 false 1)
+  else if ILessThan d zero then (mul128 n (from_int128 false (-1)), mul128 d (from_int128 false (-1))) else (n, d).
+Definition frac_value128 (n d : w128) : res w128 := let '(n', d') := frac_norm128 n d in div128 n' d'.
 End F128.
